@@ -44,7 +44,7 @@ REQUIRED_COUNTERS = {
               "fista_objective_probes": 13000, "fista_step_trace_checked": 9000, "lm_stationarity_checked": 18,
               "lm_stationarity_checked_dense": 8, "lm_stationarity_checked_sparse": 8, "wrapper_result_fields_checked": 450,
               "wrapper_forwarded_args_checked": 100, "wrapper_optimality_checked": 45, "prox_grid_checked": 1600,
-              "prox_vi_checked": 8000, "cg_floor_stopped_runs_checked": 120, "view_callable_identity_checked": 35, "arguments_unchanged_checked": 80, "solver_reuse_checked": 35, "wrapper_unreported_field_checked": 10},
+              "prox_vi_checked": 8000, "cg_floor_stopped_runs_checked": 120, "cg_far_residual_checked": 30, "wrapper_vs_scipy_checked": 120, "view_callable_identity_checked": 35, "arguments_unchanged_checked": 80, "solver_reuse_checked": 35, "wrapper_unreported_field_checked": 10},
     "thorough": {"normal_eq_checked": 900, "normal_eq_checked_CGLS": 450, "normal_eq_checked_PCGLS_explicit_sym": 110,
                  "normal_eq_checked_PCGLS_explicit_nonsym": 110, "normal_eq_checked_PCGLS_spsolve_sym": 110,
                  "normal_eq_checked_PCGLS_spsolve_nonsym": 110, "ne_reference_solution_checked": 700,
@@ -53,7 +53,7 @@ REQUIRED_COUNTERS = {
                  "fista_objective_probes": 40000, "fista_step_trace_checked": 30000, "lm_stationarity_checked": 60,
                  "lm_stationarity_checked_dense": 30, "lm_stationarity_checked_sparse": 30, "wrapper_result_fields_checked": 1300,
                  "wrapper_forwarded_args_checked": 280, "wrapper_optimality_checked": 140, "prox_grid_checked": 5000,
-                 "prox_vi_checked": 25000, "cg_floor_stopped_runs_checked": 500, "view_callable_identity_checked": 140, "arguments_unchanged_checked": 300, "solver_reuse_checked": 140, "wrapper_unreported_field_checked": 30}}
+                 "prox_vi_checked": 25000, "cg_floor_stopped_runs_checked": 500, "cg_far_residual_checked": 120, "wrapper_vs_scipy_checked": 400, "view_callable_identity_checked": 140, "arguments_unchanged_checked": 300, "solver_reuse_checked": 140, "wrapper_unreported_field_checked": 30}}
 BUDGET_S = {"quick": 600.0, "thorough": 2400.0}
 
 MIN_METHODS = [None, "BFGS", "CG", "L-BFGS-B", "TNC", "SLSQP", "Newton-CG", "trust-constr", "Nelder-Mead", "Powell", "COBYLA"]
@@ -105,6 +105,18 @@ def cases(tier, seed):
         for op in ("identity_view", "buffer_r", "buffer_J", "buffer_both", "cached_J"):
             for name in (("linear",) if op in ("identity_view", "cached_J") else R.NLS_NAMES):
                 out.append({"kind": "views", "solver": "LM", "op": op, "problem": name, "sparse": False, "rep": rep})
+    # ---- start far from the solution / zero solution / start at the exact solution: no refusal, stopping rule honoured
+    for rep in range(1 if quick else 4):
+        for solver in ("CGLS", "PCGLS"):
+            for form in ("matrix", "callable"):
+                for shift in ("zero", "pos"):
+                    for tol, logF in ((1e-6, 3), (1e-6, 5), (1e-9, 5), (1e-9, 8), (1e-12, 7), (1e-12, 9), (1e-12, 11)):
+                        out.append({"kind": "cg_far", "solver": solver, "form": form, "shift": shift, "variant": "far", "tol": tol, "logF": logF, "rep": rep})
+                    for tol in (1e-6, 1e-12):
+                        out.append({"kind": "cg_far", "solver": solver, "form": form, "shift": shift, "variant": "zero_solution", "tol": tol,
+                                    "logF": rg.choice([0, 3]), "rep": rep})
+                    if shift == "zero":
+                        out.append({"kind": "cg_far", "solver": solver, "form": form, "shift": shift, "variant": "exact_start", "tol": 1e-8, "logF": 0, "rep": rep})
     # ---- PCGLS
     for rep in range(2 if quick else 6):
         for shape in ("over", "under", "square"):
@@ -162,6 +174,17 @@ def cases(tier, seed):
                 for variant in ("plain", "maxiter", "bounds", "factr") + (("wronggrad",) if grad else ()):
                     out.append({"kind": "wrap", "solver": "L_BFGS_B", "method": None, "grad": grad, "fn": fn, "variant": variant,
                                 "x0type": rg.choice(["ndarray", "cuqi"]), "rep": rep})
+        # every documented pass-through keyword, once at a value equal to scipy's default and once at another value
+        for kw in ("m", "factr", "pgtol", "epsilon", "maxiter", "maxfun", "bounds"):
+            for level in ("def", "non"):
+                out.append({"kind": "wrap", "solver": "L_BFGS_B", "method": None, "grad": kw != "epsilon", "fn": rg.choice(R.SMOOTH_NAMES),
+                            "variant": f"kw:{kw}:{level}", "x0type": rg.choice(["ndarray", "cuqi"]), "rep": rep})
+        for solver in ("minimize", "maximize"):
+            for kw in ("tol", "options", "bounds", "callback"):
+                for level in ("def", "non"):
+                    out.append({"kind": "wrap", "solver": solver, "method": rg.choice([None, "BFGS", "L-BFGS-B", "SLSQP", "TNC"]) if kw != "bounds" else rg.choice(BOUND_METHODS),
+                                "grad": rg.choice([True, False]), "fn": rg.choice(R.SMOOTH_NAMES) if kw != "bounds" else "quad",
+                                "variant": f"kw:{kw}:{level}", "x0type": rg.choice(["ndarray", "cuqi"]), "rep": rep})
         for name in R.NLS_NAMES:
             for method in ("trf", "dogbox", "lm"):
                 for jac in (True, False):
@@ -395,6 +418,72 @@ def _run_cg_floor(case, ctx):
             ctx.violation("garbage_after_convergence", {"solver": case["solver"], "tol": "below_floor", "stop_rule": rule},
                           detail=f"{case['solver']} m={m} n={n} tol={tol} start {case['offset']:g} from the solution: stopped after k={k} < maxit={maxit} "
                                  f"with ||x|| = {_norm(x):.3e}, ||x - x_ref|| = {err:.3e} (||x_ref|| = {_norm(xs):.3e})")
+    ctx.nontrivial()
+
+def _run_cg_far(case, ctx):
+    """Start 1e3..1e11 times larger than the solution (F*tol <= 0.1, so the ||x||*tol >= 1 exit stays out of play), zero
+    solution from a non-zero start, start at the exact solution: solve() must return (no refusal) a point that honours
+    the stopping rule ||(P^-T)(A^T(b-Ax)-s x)|| <= tol * (the same at x0)."""
+    from cuqi.solver._solver import CGLS, PCGLS
+    rs = core.np_rng(ctx.seed, PROPERTY, core.canon(case))
+    solver, variant, tol = case["solver"], case["variant"], float(case["tol"])
+    cfg = {"solver": solver, "form": case["form"], "shift": case["shift"], "start": variant}
+    n = int(rs.randint(3, 25)); m = n + int(rs.randint(0, 15))
+    if variant == "exact_start":
+        for _ in range(50):
+            A = rs.randint(-3, 4, size=(m, n)).astype(float)
+            if np.linalg.matrix_rank(A) == n and np.linalg.cond(A) < 1e3:
+                break
+        xs = rs.randint(-4, 5, size=n).astype(float)
+        b = A @ xs                                   # exact in floating point (small integers)
+        x0 = xs.copy()
+    else:
+        A = R.dense_matrix(rs, m, n, float(rs.choice([3.0, 30.0])))
+        if variant == "zero_solution":
+            b = np.zeros(m)
+            x0 = rs.standard_normal(n) * 10.0 ** int(case["logF"])
+        else:
+            b = A @ rs.standard_normal(n) + 0.1 * rs.standard_normal(m)
+    sv = R.svals(A)
+    shift = 0.0 if case["shift"] == "zero" else 0.3 * float(sv[0] ** 2)
+    P = R.preconditioner(rs, n, "spd") if solver == "PCGLS" else None
+    Pd = None if P is None else P.toarray()
+    if variant == "far":
+        xref = np.linalg.solve(A.T @ A + shift * np.eye(n), A.T @ b)
+        d = rs.standard_normal(n); d /= _norm(d)
+        x0 = xref + (10.0 ** int(case["logF"])) * _norm(xref) * d
+    maxit = 25 * max(m, n) + 400
+    log = []
+    Af = A if case["form"] == "matrix" else _mk_callable(A, log)
+    mk = (lambda: CGLS(Af, b.copy(), x0.copy(), maxit, tol, shift)) if solver == "CGLS" else (lambda: PCGLS(Af, b.copy(), x0.copy(), P.copy(), maxit, tol, shift))
+    kind_, val = core.outcome(lambda: mk().solve(), refusal=Exception)
+    ctx.count("cg_far_runs")
+    if kind_ != "value":
+        ctx.violation("refused_on_solvable_problem", dict(cfg, exc=type(val).__name__),
+                      detail=f"{solver} m={m} n={n} cond<=30 tol={tol} ||x0||/||x*|| = 1e{case['logF']}: solve() raised {val!r} instead of returning the "
+                             f"normal-equations solution")
+        return
+    x, k = val
+    x = np.asarray(x, dtype=float)
+    if x.shape != (n,) or not np.all(np.isfinite(x)):
+        ctx.violation("solution_malformed", cfg, detail=f"shape {x.shape} / non-finite"); return
+    if int(k) >= maxit:
+        ctx.inconclusive(f"{solver} reached maxit from a far start (tol={tol}, F=1e{case['logF']})"); ctx.count("not_converged"); return
+    if _norm(x) * tol >= 1:
+        ctx.inconclusive("stopped by the ||x||*tol >= 1 rule"); return
+    g, g0 = R.ne_residual(A, b, x, shift, Pd), R.ne_residual(A, b, x0, shift, Pd)
+    nA = float(sv[0]); nP, nPi = (1.0, 1.0) if Pd is None else (float(np.linalg.norm(Pd, 2)), float(np.linalg.norm(np.linalg.inv(Pd), 2)))
+    scale = nPi * nPi * nA * nA * nP * max(_norm(x), _norm(x0)) + nPi * nA * _norm(b) + nPi * shift * _norm(x)
+    bound = 1.01 * tol * _norm(g0) + 1e3 * R.EPS * (int(k) + 1) * scale
+    ctx.count("cg_far_residual_checked")
+    if _norm(g) <= bound:
+        _track(ctx, "max_cg_far_resid_over_bound", _norm(g) / bound if bound > 0 else 0.0)
+    else:
+        ctx.violation("normal_equations_residual", dict(cfg, solves_unshifted=False),
+                      detail=f"{solver} m={m} n={n} tol={tol} start {variant} F=1e{case['logF']}: residual {_norm(g):.3e} > tol*initial {tol*_norm(g0):.3e} (+{bound-1.01*tol*_norm(g0):.1e})")
+        return
+    if variant == "exact_start" and not np.array_equal(x, xs):
+        ctx.violation("reference_solution_mismatch", dict(cfg, unique=True), detail=f"started at the exact solution, returned a point {_norm(x-xs):.3e} away")
     ctx.nontrivial()
 
 def _view_operator(op, n, rs):
@@ -956,6 +1045,26 @@ def _run_wrap(case, ctx):
             bounds = [(float(c[i] + 0.2), float(c[i] + 2.5)) if i % 2 == 0 else (float(c[i] - 3.0), float(c[i] + 3.0)) for i in range(n)]
             x0 = wrap_x0(np.array([0.5 * (l + h) for l, h in bounds]))
             kwargs["bounds"] = bounds
+        kwv = variant.split(":") if variant.startswith("kw:") else None
+        cb_log = []
+        if kwv and kwv[1] == "bounds":
+            if kwv[2] == "def":
+                kwargs["bounds"] = None
+            else:
+                c = fn.xstar if fn.xstar is not None else fn.x0
+                bounds = [(float(c[i] + 0.2), float(c[i] + 2.5)) if i % 2 == 0 else (float(c[i] - 3.0), float(c[i] + 3.0)) for i in range(n)]
+                x0 = wrap_x0(np.array([0.5 * (l + h) for l, h in bounds]))
+                kwargs["bounds"] = bounds
+        if kwv and solver == "L_BFGS_B" and kwv[1] != "bounds":
+            kwargs[kwv[1]] = {"m": (10, 4), "factr": (1e7, 1e3), "pgtol": (1e-5, 1e-9), "epsilon": (1e-8, 1e-6), "maxiter": (15000, 3),
+                              "maxfun": (15000, 7)}[kwv[1]][0 if kwv[2] == "def" else 1]
+        if kwv and solver != "L_BFGS_B" and kwv[1] != "bounds":
+            if kwv[1] == "tol":
+                kwargs["tol"] = None if kwv[2] == "def" else 1e-9
+            elif kwv[1] == "options":
+                kwargs["options"] = {} if kwv[2] == "def" else {"maxiter": 4}
+            else:
+                kwargs["callback"] = None if kwv[2] == "def" else (lambda xk, *a_: cb_log.append(1))
         if solver == "L_BFGS_B":
             if variant == "maxiter":
                 kwargs["maxiter"] = 1
@@ -974,13 +1083,24 @@ def _run_wrap(case, ctx):
             obj = cls(func, x0, gradfunc=grad, method=method, **kwargs)
             target, attr = so, "minimize"
 
-    rec = _Rec(getattr(target, attr))
-    setattr(target, attr, rec)
+    # spy on the scipy entry point the wrapper is documented to use - if it is there.  Which entry point the library really
+    # calls is its own business: no spy firing is a lost observation; the public-boundary comparison below decides anyway.
+    have_spy = hasattr(target, attr)
+    rec = _Rec(getattr(target, attr)) if have_spy else _Rec(None)
+    if have_spy:
+        setattr(target, attr, rec)
     try:
         kind, val = core.outcome(obj.solve, refusal=Exception)
     finally:
-        setattr(target, attr, rec.real)
+        if have_spy:
+            setattr(target, attr, rec.real)
     ctx.count("wrapper_runs")
+    _public_boundary(ctx, cfg, case, solver, method, variant, kind, val,
+                     dict(func=func, grad=(jac if solver == "LS" else grad), x0=x0, kwargs=(None if solver == "LS" else kwargs),
+                          ls=(None if solver != "LS" else dict(tol=tol, maxit=maxit)), wrap_x0=wrap_x0))
+    if len(rec.calls) == 0:
+        ctx.count("wrapper_spy_lost")
+        return
     if len(rec.calls) != 1:
         ctx.violation("wrapper_callout_count", cfg, detail=f"{len(rec.calls)} calls of scipy's {attr} observed, expected 1 ({kind}: {val!r})")
         return
@@ -1087,7 +1207,7 @@ def _run_wrap(case, ctx):
     ctx.nontrivial()
     # ---- the point scipy (and hence the wrapper) reports as converged is optimal for the user's problem
     xs = np.asarray(sol, dtype=float)
-    if not success or variant in ("maxiter", "wronggrad"):
+    if not success or variant in ("maxiter", "wronggrad") or variant.startswith("kw:max") or variant == "kw:options:non":
         return
     if solver == "LS":
         if variant != "linear":
@@ -1119,6 +1239,57 @@ def _run_wrap(case, ctx):
         ctx.violation("wrapper_not_optimal", cfg,
                       detail=f"{solver}/{method} on {case['fn']}: scipy reports success, but the objective to be minimised went {f0:.8g} -> {fx:.8g} "
                              f"(optimum {fref:.8g}): the returned point is worse than the start")
+
+def _public_boundary(ctx, cfg, case, solver, method, variant, kind, val, a):
+    """What the wrapper returns must be what the documented scipy function returns for the same documented arguments
+    (all methods used are deterministic).  Independent of the entry point the library uses internally."""
+    import scipy.optimize as so
+    func, grad, kwargs = a["func"], a["grad"], a["kwargs"]
+    x0r = a["wrap_x0"](np.array(a["x0"], dtype=float, copy=True))
+    with np.errstate(all="ignore"):
+        if solver == "L_BFGS_B":
+            rk, rv = core.outcome(lambda: so.fmin_l_bfgs_b(func, x0r, fprime=grad, approx_grad=(grad is None), **kwargs), refusal=Exception)
+            unpack = lambda r: (r[0], r[1], r[2]["nit"], r[2]["warnflag"] == 0)
+        elif solver == "LS":
+            rk, rv = core.outcome(lambda: so.least_squares(func, x0r, jac=grad, method=method, loss=variant, xtol=a["ls"]["tol"],
+                                                           max_nfev=a["ls"]["maxit"]), refusal=Exception)
+            unpack = lambda r: (r["x"], r["fun"], None, bool(r["success"]))
+        else:
+            kw2 = dict(kwargs)
+            rk, rv = core.outcome(lambda: so.minimize(func if solver == "minimize" else (lambda *z, **q: -func(*z, **q)), x0r,
+                                                      jac=(grad if (solver == "minimize" or grad is None) else (lambda *z, **q: -grad(*z, **q))),
+                                                      method=method, **kw2), refusal=Exception)
+            unpack = lambda r: (r["x"], r["fun"], _get(r, "nit"), bool(r["success"]))
+    ctx.count("wrapper_vs_scipy_checked")
+    if rk != "value":
+        if kind == "value":
+            ctx.violation("wrapper_differs_from_scipy", dict(cfg, what="exception"), detail=f"scipy raises {rv!r} for these arguments, the wrapper returned a value")
+        return
+    if kind != "value":
+        if not (isinstance(val, KeyError)):      # KeyError after a finished scipy run is reported by the spy branch (wrapper_lost_result)
+            ctx.violation("wrapper_differs_from_scipy", dict(cfg, what="exception", exc=type(val).__name__),
+                          detail=f"scipy's documented function returns a result for these arguments, the wrapper raised {val!r}")
+        return
+    try:
+        sol, info = val
+        rx, rf, rnit, rsucc = unpack(rv)
+        sol = np.asarray(sol, dtype=float); rx = np.asarray(rx, dtype=float)
+        bad = []
+        if sol.shape != rx.shape or not (_norm(sol - rx) <= 1e-9 * (1 + _norm(rx))):
+            bad.append(f"x = {core.short(sol.tolist(), 90)}, scipy gives {core.short(rx.tolist(), 90)}")
+        fi, fr = np.asarray(info["func"], dtype=float), np.asarray(rf, dtype=float)
+        if fi.shape != fr.shape or not (np.all(np.abs(np.abs(fi) - np.abs(fr)) <= 1e-9 * (1 + np.abs(fr))) if solver == "maximize"
+                                       else np.all(np.abs(fi - fr) <= 1e-9 * (1 + np.abs(fr)))):
+            bad.append(f"func = {core.short(fi.tolist(), 60)}, scipy gives {core.short(fr.tolist(), 60)}")
+        if rnit is not None and info.get("nit") is not None and int(info["nit"]) != int(rnit):
+            bad.append(f"nit = {info['nit']}, scipy needs {rnit}")
+        if bool(info.get("success")) != bool(rsucc):
+            bad.append(f"success = {info.get('success')}, scipy reports {rsucc}")
+    except Exception as e:  # noqa
+        bad = [f"result of unexpected structure: {e!r}"]
+    if bad:
+        ctx.violation("wrapper_differs_from_scipy", cfg,
+                      detail=f"{solver}(method={method!r}, {variant}) vs the documented scipy function called with the same arguments: " + "; ".join(bad))
 
 def _get(res, key):
     try:
@@ -1229,6 +1400,8 @@ def run_case(case, ctx):
         _run_ne(case, ctx)
     elif k == "cg_floor":
         _run_cg_floor(case, ctx)
+    elif k == "cg_far":
+        _run_cg_far(case, ctx)
     elif k == "views":
         _run_views(case, ctx)
     elif k == "fista":
